@@ -19,7 +19,10 @@ Inductive edesc :=
 | DReverb (fb damp width : Z) (mix : Z).          (* f64 x3; f32 *)
 
 Inductive case :=
-| Case (sr T : Z) (tab : list (Z * Z * Z)) (e : edesc) (slices : list Z) (input : list (Z * Z)).
+| Case (sr T : Z) (tab : list (Z * Z * Z)) (e : edesc) (slices : list Z) (input : list (Z * Z))
+(** [init(sr1)], process, [on_change_sample_rate(sr2)], process *)
+| CaseSR (sr1 sr2 T : Z) (tab : list (Z * Z * Z)) (e : edesc)
+         (slices1 : list Z) (input1 : list (Z * Z)) (slices2 : list Z) (input2 : list (Z * Z)).
 
 (** libm table: (function tag, argument bits, result bits); a missing entry yields a sentinel
     (the implementation called libm with another argument than the model computed) *)
@@ -108,4 +111,12 @@ Definition run (c : case) : list Z :=
       let xs := map (fun p => (f32_of_bits (fst p), f32_of_bits (snd p))) input in
       encode_outcome (fun r => enc_frames (snd r))
         (process_slices consts_f32 (Z.to_nat T) e (init e) (split_by (map Z.to_nat slices) xs))
+  | CaseSR sr1 sr2 T tab d slices1 input1 slices2 input2 =>
+      let e1 := compile sr1 tab d in
+      let e2 := compile sr2 tab d in
+      let fr := map (fun p => (f32_of_bits (fst p), f32_of_bits (snd p))) in
+      encode_outcome enc_frames
+        (let! (s1, o1) := process_slices consts_f32 (Z.to_nat T) e1 (init e1) (split_by (map Z.to_nat slices1) (fr input1)) in
+         let! (s2, o2) := process_slices consts_f32 (Z.to_nat T) e2 (change_rate e2 s1) (split_by (map Z.to_nat slices2) (fr input2)) in
+         Ok (o1 ++ o2))
   end.
